@@ -20,6 +20,25 @@ from sa.core import AnalysisError  # noqa: E402
 from sa.report import Ctx  # noqa: E402
 
 
+def self_validate(ctx, prop) -> None:
+    """E9: the rules of this property against edited scratch copies of the current tree - breaking
+    variants must be reported, behaviour-preserving ones must stay silent (analysed, never executed)."""
+    from sa import selftest
+    results = selftest.run_all({prop})
+    summary = selftest.summarize(results)
+    ctx.extra['self_validation'] = {
+        'variants': len(results), 'summary': summary,
+        'results': [{k: r.get(k) for k in ('id', 'kind', 'result', 'rules')} for r in results]}
+    for r in results:
+        if r['result'] in ('caught', 'silent'):
+            ctx.ok('E9', f"variant {r['id']} ({r['kind']}): {r['result']}"
+                         + (f" by {','.join(r.get('rules') or [])}" if r['kind'] == 'break' else ''), '')
+    bad = [r for r in results if r['result'] in ('MISSED', 'FALSE-ALARM', 'analysis-error')]
+    if bad:
+        raise AnalysisError('E9', 'self-validation of the rules failed on the current tree: ' + '; '.join(
+            f"{r['id']} -> {r['result']} {r.get('error') or ''}" for r in bad[:5]))
+
+
 def main(argv=None) -> int:
     ap = argparse.ArgumentParser()
     ap.add_argument('prop')
@@ -36,8 +55,10 @@ def main(argv=None) -> int:
     try:
         ctx = Ctx(prop, args.tier, level=getattr(mod, 'LEVEL', 'other'), replay=args.replay)
         mod.check(ctx)
-        if args.tier == 'thorough' and hasattr(mod, 'thorough'):
-            mod.thorough(ctx)
+        if args.tier == 'thorough':
+            if hasattr(mod, 'thorough'):
+                mod.thorough(ctx)
+            self_validate(ctx, prop)
         if args.replay:
             rec = json.loads(Path(args.replay).read_text())
             print(f'REPLAY rule={rec.get("rule")} function={rec.get("function")}')
